@@ -406,6 +406,16 @@ class Terms:
             return ('bytes', tuple(o['bytes']))
         if 'static' in o:
             return ('static', o['static'])
+        if 'promoted' in o and o.get('path') and self.crate is not None:
+            # `&NAMED_CONST` promoted out of the function: say which constant it is
+            pb = getattr(self.crate, 'promoted', {}).get((o['path'], o['promoted']))
+            if pb is not None and len(pb.blocks) == 1:
+                st = [s for s in pb.blocks[0]['stmts'] if s['k'] == 'assign']
+                if len(st) == 2 and st[0]['rv']['k'] == 'use' and st[0]['rv']['op'].get('k') == 'const' and st[0]['rv']['op'].get('path') \
+                        and 'promoted' not in st[0]['rv']['op'] and st[1]['rv']['k'] == 'ref' and st[1]['place'] == {'l': 0, 'p': []} \
+                        and st[1]['rv']['place'] == {'l': st[0]['place']['l'], 'p': []}:
+                    c0 = st[0]['rv']['op']
+                    return ('ref', ('const', c0.get('ty'), c0.get('val'), c0.get('path')), False)
         return ('const', o.get('ty'), o.get('val'), o.get('path'))
 
     def operand_term(self, o, bb, idx):
